@@ -383,7 +383,9 @@ func (p *Program) scanWrites(fi *FuncInfo, body ast.Node, mi *modInfo) {
 							}
 						}
 					case types.FieldVal:
-						mi.direct["*"] = true
+						if fi.C == nil || !fi.C.PureFields[f.Sel.Name] {
+							mi.direct["*"] = true
+						}
 					}
 				} else if o, ok := info.Uses[f.Sel].(*types.Func); ok {
 					if !isLogrus(o) {
